@@ -99,6 +99,12 @@ func (c *IClient) Get(ctx context.Context, key client.ObjectKey, obj client.Obje
 	if err != nil {
 		return err
 	}
+	// real clients ignore the namespace of a key for cluster-scoped kinds; the fake does not
+	if key.Namespace != "" {
+		if namespaced, nerr := c.WithWatch.IsObjectNamespaced(obj); nerr == nil && !namespaced {
+			key.Namespace = ""
+		}
+	}
 	return c.end(call, c.WithWatch.Get(ctx, key, obj, opts...))
 }
 
